@@ -272,6 +272,40 @@ func c11Check(ctx *vfCtx, c c11Case) {
 			ctx.Fail("C11/"+algo+"/deprecated/order-dependent", "ResolveConflicts (deprecated) gives a different state for a permutation of the same input: %s", c10Diff(p, grIDs(got), strings.Split(dep0, ",")))
 		}
 	}
+	// the version-1 resolver called directly (ResolveStateConflicts is public): the conflicted events
+	// in whatever order the caller has them — grouped by key or not — give the same state, one event
+	// per key
+	if algo == "v1" && !ctx.Failed() {
+		conflicted, _ := splitConflictedUnconflicted(StateResV1, p.Sets)
+		var d0 string
+		for i := 0; i < 3 && len(conflicted) > 1; i++ {
+			in := conflicted
+			if i > 0 {
+				in = c11Shuffle(ch, conflicted)
+			}
+			var got []PDU
+			if vfCatch(ctx, "C11/v1/direct", func() { got = ResolveStateConflicts(append([]PDU(nil), in...), append([]PDU(nil), auth...), vfUserIDForSender) }) {
+				return
+			}
+			seen := map[string]bool{}
+			for _, e := range got {
+				k := e.Type() + "\x00" + *e.StateKey()
+				if seen[k] {
+					ctx.Fail("C11/v1/direct/duplicate-key", "ResolveStateConflicts returns two events for (%s, %q)", e.Type(), *e.StateKey())
+					return
+				}
+				seen[k] = true
+			}
+			ids := strings.Join(grIDs(got), ",")
+			if i == 0 {
+				d0 = ids
+				ctx.Class("v1-direct-call")
+			} else if ids != d0 {
+				ctx.Fail("C11/v1/direct/order-dependent", "ResolveStateConflicts gives a different state for another order of the conflicted events: %s", c10Diff(p, grIDs(got), strings.Split(d0, ",")))
+				return
+			}
+		}
+	}
 	// all-equal state sets resolve to that state
 	if c.Equal && len(p.Sets) > 0 && !ctx.Failed() {
 		s0 := p.Sets[int(c.Seed%uint64(len(p.Sets)))]
